@@ -3,7 +3,7 @@ from __future__ import annotations
 
 import ast
 
-from sa.loader import norm, norm1, walk_shallow, own_nodes, is_super_call, call_name
+from sa.loader import recv, norm, norm1, walk_shallow, own_nodes, is_super_call, call_name
 from sa.rulekit import (nodes_calling, node_calls, nodes_where, own, return_nodes, kw,
                         nodes_writing_attr, must_pass)
 from sa.report import path_witness
@@ -108,9 +108,9 @@ def run(ck):
         sites = nodes_calling(cfg, 'set_output')
         for n in sites:
             for c in node_calls(n, 'set_output'):
-                if not (isinstance(c.func, ast.Attribute) and norm(c.func.value) == 'self'):
+                if not (isinstance(c.func, ast.Attribute) and recv(c) == 'self'):
                     ck.ob(R1d, f"{fi.fid} :: {norm1(n.ast)}", False,
-                          f"set_output is called on `{norm(c.func.value)}`, not through self "
+                          f"set_output is called on `{recv(c)}`, not through self "
                           f"(bypasses the class's own setter chain)", fi, n.ast)
                     continue
                 ck.need(R1, len(c.args) == 1 and not c.keywords,
@@ -166,7 +166,7 @@ def run(ck):
         cands = []
         for n in nodes_where(cfg, lambda n: True):
             for c in node_calls(n):
-                if isinstance(c.func, ast.Attribute) and norm(c.func.value) == 'self':
+                if isinstance(c.func, ast.Attribute) and recv(c) == 'self':
                     if c.func.attr in reducing:
                         cands.append(n)
                     elif c.func.attr == 'event':
@@ -204,7 +204,7 @@ def run(ck):
                 vals = ck.rdefs(fi.fid).value_exprs(r, v.id)
                 call = vals[0] if len(vals) == 1 and not isinstance(vals[0], str) else v
             if not (isinstance(call, ast.Call) and isinstance(call.func, ast.Attribute)
-                    and norm(call.func.value) == 'self' and call.func.attr in reducing
+                    and recv(call) == 'self' and call.func.attr in reducing
                     and len(call.args) == 1):
                 problems.append(f"`{norm1(r.ast)}` does not return the reducing setter's result")
                 continue
